@@ -42,3 +42,12 @@ func VerifSocketPipes(s mangos.Socket) int {
 	defer cs.pipes.lock.Unlock()
 	return len(cs.pipes.pipes)
 }
+
+// VerifNewSocketHook, when non-nil, is told of every socket that is created.
+var VerifNewSocketHook func(mangos.Socket)
+
+func verifNewSocket(s *socket) {
+	if VerifNewSocketHook != nil {
+		VerifNewSocketHook(s)
+	}
+}
